@@ -153,7 +153,7 @@ def pc_number(t):
         if i == s: return None
     if i < n:
         return None   # a letter ("need space"), a second dot, or an operator: not one number literal
-    if is_float: return ("float",)
+    if is_float: return ("float", fbits(t))
     if kind == "hex":
         v = int(t[2:], 16)
         return ("int", v) if v < 1 << 64 else UNKNOWN
@@ -161,7 +161,14 @@ def pc_number(t):
         v = int(t, 8)
         return ("int", v) if v < 1 << 64 else UNKNOWN
     v = int(t)
-    return ("int", v) if v < 1 << 64 else ("float",)
+    return ("int", v) if v < 1 << 64 else ("float", fbits(t))
+
+
+def fbits(t):
+    """IEEE-754 double bits of the decimal literal t, correctly rounded, overflow to +infinity without complaint (protoc's
+    Tokenizer::ParseFloat is strtod; Python's float() is correctly rounded too and gives inf on overflow)"""
+    import struct
+    return struct.unpack(">Q", struct.pack(">d", float(t.decode("ascii"))))[0]
 
 
 # every character class boundary of the escape scanner: octal 0 7 | 8, decimal 9 | : /, hex a f A F | g G ` @
@@ -215,9 +222,35 @@ def run(ctx):
                 nums.append(s)
     nums += [b"18446744073709551615", b"18446744073709551616", b"0xffffffffffffffff", b"0x10000000000000000", b"01777777777777777777777",
              b"02000000000000000000000", b"1e400", b"1e-400", b"123456789012345678901234567890", b"0.5", b"00.5", b"01.5", b"09.5", b"08e1", b"1.", b"1.e5", b".5e-3"]
+    # magnitudes: digit-only and decimal literals around 2^64, around the largest double (overflow to infinity without
+    # complaint) and the smallest (underflow to zero), long digit strings, rounding boundaries
+    MAXF = b"17976931348623157" + b"0" * 292          # just below MaxFloat64
+    for s in [b"1" + b"0" * k for k in (19, 20, 21, 38, 39, 100, 307, 308, 309, 310, 400, 1000)] + \
+             [b"9" * k for k in (19, 20, 21, 308, 309, 310, 400)] + \
+             [MAXF, MAXF[:-1] + b"1", b"17976931348623158" + b"0" * 292, b"17976931348623159" + b"0" * 292, b"179769313486231580793728971405303415079934132710037826936173778980444968292764750946649017977587207096330286416692887910946555547851940402630657488671505820681908902000708383676273854845817711531764475730270069855571366959622842914819860834936475292719074168444365510704342711559699508093042880177904174497791",
+              b"179769313486231580793728971405303415079934132710037826936173778980444968292764750946649017977587207096330286416692887910946555547851940402630657488671505820681908902000708383676273854845817711531764475730270069855571366959622842914819860834936475292719074168444365510704342711559699508093042880177904174497792",
+              b"1.7976931348623157e308", b"1.7976931348623158e308", b"1.7976931348623159e308", b"1e308", b"1e309", b"2e308", b"1.8e308", b"1e400", b"1e99999", b"1E+400",
+              b"4.9e-324", b"2.4703282292062327e-324", b"2.4703282292062328e-324", b"2.5e-324", b"1e-323", b"1e-324", b"1e-400", b"1e-99999", b"0e400", b"0.0e-400",
+              b"0." + b"0" * 400 + b"1", b"1" + b"0" * 400 + b".5", b"." + b"9" * 400, b"9007199254740993", b"9007199254740993.0", b"18446744073709551615.0",
+              b"18446744073709551616.0", b"18446744073709551617", b"18446744073709553665", b"18446744073709553664", b"36893488147419103232",
+              b"0.1", b"0.30000000000000004", b"123456789012345678", b"5e-324", b"2.2250738585072014e-308", b"2.2250738585072011e-308",
+              b"1" + b"0" * 309 + b"e-309", b"0." + b"0" * 308 + b"1e309"]:
+        nums.append(s)
+    for _ in range(ctx.budget(300, 20000)):
+        k = rng.choice([1, 5, 17, 19, 20, 21, 30, 300, 309, 310, 330])
+        d = bytes(rng.choice(b"0123456789") for _ in range(k)).lstrip(b"0") or b"1"
+        form = rng.below(4)
+        if form == 0:
+            nums.append(d)
+        elif form == 1:
+            p = rng.below(len(d) + 1)
+            nums.append((d[:p] or b"0") + b"." + d[p:])
+        else:
+            nums.append(d[:17] + (b"." + d[17:20] if form == 3 and len(d) > 17 else b"") + b"e" + rng.choice([b"", b"+", b"-"]) + str(rng.choice([0, 1, 22, 23, 290, 300, 307, 308, 309, 320, 324, 400])).encode())
     ctx.rule = ("string literals: every body of <= %d symbols over a %d-symbol escape alphabet (backslash, x X u U, digits, hex letters, both quotes, newline, NUL, a "
                 "2-byte character, an invalid byte) in double quotes, a corpus of unicode / surrogate / overflow cases, random longer literals in both quote "
-                "styles; number literals: every string of <= %d symbols over %d symbols that starts like a number, plus boundary values; each is lexed by the "
+                "styles; number literals: every string of <= %d symbols over %d symbols that starts like a number, plus boundary values and magnitudes (digit strings and decimal forms around 2^64, MaxFloat64, the smallest subnormal; "
+                "float VALUES are compared bit for bit with correctly rounded conversion, overflow = +inf); each is lexed by the "
                 "real lexer and compared with the transcription of protoc's rules; distinct = distinct literal; non-trivial = at least 2 symbols"
                 % (L, len(STR_ALPHA), NL, len(NUM_ALPHA)))
     outs = ctx.impl("lexer", [{"mode": "lex", "data": (s + b" ;").hex()} for s in strs + nums])
@@ -267,13 +300,13 @@ def run(ctx):
         whole = it is not None and it["off"] == 0 and it["len"] == len(t) and it["k"] in ("int", "float")
         got = None
         if whole:
-            got = ("int", int(it["int"], 16)) if it["k"] == "int" else ("float",)
+            got = ("int", int(it["int"], 16)) if it["k"] == "int" else ("float", int(it["float"], 16))
         rep = {"literal": t.decode("latin1"), "implementation": got, "protoc_rules": want}
         if want == UNKNOWN:
             note("num-unknown-overflow")
         elif got == want:
             note("num-agree-accept" if want is not None else "num-agree-reject")
-        elif got == ("float",) and want is None and t[0] == 48 and len(t) > 1 and t[1] in b"0123456789":
+        elif got is not None and got[0] == "float" and want is None and t[0] == 48 and len(t) > 1 and t[1] in b"0123456789":
             ctx.violation("leading-zero-float-accepted", "a float literal with a leading zero followed by a digit (01.5, 09e1) is accepted; protoc rejects "
                           "it (numbers starting with a leading zero must be octal integers)", rep)
         else:
